@@ -51,12 +51,14 @@ LoopOf(o) == IF o = <<>> THEN EmptyLoop
                    a |-> o[1].a, r |-> o[1].r, g |-> o[1].g, b |-> o[1].b]
 Pad8(s, E(_), e) == [k \in 1 .. (IF Len(s) > 8 THEN Len(s) ELSE 8) |-> IF k <= Len(s) THEN E(s[k]) ELSE e]
 OrZero8(o) == IF o = <<>> THEN Zero8 ELSE o[1]
+Bool(x) == IF x = 0 THEN 0 ELSE 1
 
 \* the set of values the column may hold after setter f with byte-level argument a, given its value v before;
 \* {} means "no exact expectation" (then only the position rules below apply)
 Expect(f, col, a, v) ==
-    CASE f = "hot_cue_at" /\ a.i \in 0 .. Len(v.cues) - 1 -> {[v EXCEPT !.cues[a.i + 1] = CueOf(a.c)]}
-      [] f = "hot_cues" -> {[v EXCEPT !.cues = Pad8(a.cs, CueOf, EmptyCue)]}
+    \* (C04: the main-cue-adjusted byte is a boolean and may be normalised from any non-zero value to 1)
+    CASE f = "hot_cue_at" /\ a.i \in 0 .. Len(v.cues) - 1 -> {[v EXCEPT !.cues[a.i + 1] = CueOf(a.c), !.isadj = ia] : ia \in {v.isadj, Bool(v.isadj)}}
+      [] f = "hot_cues" -> {[v EXCEPT !.cues = Pad8(a.cs, CueOf, EmptyCue), !.isadj = ia] : ia \in {v.isadj, Bool(v.isadj)}}
       [] f = "main_cue" ->            \* the main cue is three fields of the blob; cues and trailing bytes stay
             {[v EXCEPT !.adj = OrZero8(a.d), !.dflt = d, !.isadj = ia] : d \in {OrZero8(a.d), v.dflt}, ia \in {0, 1, v.isadj}}
       [] f = "loop_at" /\ a.i \in 0 .. Len(v.loops) - 1 -> {[v EXCEPT !.loops[a.i + 1] = LoopOf(a.c)]}
@@ -114,10 +116,14 @@ Other(r) ==
     /\ bl' = O
     /\ val' = [id \in DOMAIN O |-> IF id \in DOMAIN val /\ id \notin subj THEN val[id] ELSE [c \in Cols |-> <<>>]]
 
+\* C16 on tracks holding foreign blobs: the observation phase (all getters, snapshot(), twice) issued no write statement,
+\* changed no row and left the digest of all tables as it was - a getter must not "repair" or re-encode what it reads
+NoWrite(r) == r.o16.w = 0 /\ r.o16.chg = 0 /\ (Has(r.o16, "same") => r.o16.same) /\ (Has(r.o16, "rep") => r.o16.rep)
+
 TCall ==
     /\ l <= Len(Log)
     /\ LET r == Log[l] IN
-       /\ r.e = "call" /\ Has(r, "obs") /\ Has(r.obs, "bl")
+       /\ r.e = "call" /\ Has(r, "obs") /\ Has(r.obs, "bl") /\ NoWrite(r)
        /\ CASE r.op = "set" -> Set(r)
             [] r.op = "foreign" -> Foreign(r)
             [] OTHER -> Other(r)
